@@ -1484,14 +1484,24 @@ fn mul_helper_multi_zero_inclusive(
     }
     // Since unbounded cases are handled above, we can safely
     // use the utility functions here to eliminate code duplication.
-    let lower = min_of_bounds(
-        &mul_bounds::<false>(dt, &lhs.lower, &rhs.upper),
-        &mul_bounds::<false>(dt, &rhs.lower, &lhs.upper),
-    );
-    let upper = max_of_bounds(
-        &mul_bounds::<true>(dt, &lhs.upper, &rhs.upper),
-        &mul_bounds::<true>(dt, &lhs.lower, &rhs.lower),
-    );
+    // A NULL candidate is an overflowed product, i.e. -INF for a lower bound and +INF
+    // for an upper bound. `min_of_bounds` / `max_of_bounds` read NULL as the opposite
+    // infinity and would drop it, so an overflowed candidate has to win explicitly.
+    let unbounded = || ScalarValue::try_from(dt).unwrap();
+    let lower_1 = mul_bounds::<false>(dt, &lhs.lower, &rhs.upper);
+    let lower_2 = mul_bounds::<false>(dt, &rhs.lower, &lhs.upper);
+    let lower = if lower_1.is_null() || lower_2.is_null() {
+        unbounded()
+    } else {
+        min_of_bounds(&lower_1, &lower_2)
+    };
+    let upper_1 = mul_bounds::<true>(dt, &lhs.upper, &rhs.upper);
+    let upper_2 = mul_bounds::<true>(dt, &lhs.lower, &rhs.lower);
+    let upper = if upper_1.is_null() || upper_2.is_null() {
+        unbounded()
+    } else {
+        max_of_bounds(&upper_1, &upper_2)
+    };
     // There is no possibility to create an invalid interval.
     Interval::new(lower, upper)
 }
